@@ -101,6 +101,7 @@ type world struct {
 	now    time.Time
 	seq    int
 	latest bool
+	dbs    []*jsondb.JSONDB
 }
 
 func (w *world) loc(i int) string { return filepath.Join(w.root, "dags", w.names[i]) }
@@ -188,7 +189,7 @@ func (w *world) apply(o Op, labels map[string]bool) *failure {
 		w.seq++
 		req := fmt.Sprintf("%08x-req-%d", 0x1000+w.seq*7919, w.seq) // unique in the first 8 characters
 		st := w.startTime(o)
-		db := jsondb.New(w.data, w.latest)
+		db := w.newDB()
 		if err := db.Open(w.loc(d), st, req); err != nil {
 			return fail("Open(%q) failed: %v", w.loc(d), err)
 		}
@@ -213,7 +214,7 @@ func (w *world) apply(o Op, labels map[string]bool) *failure {
 		}
 		w.seq++
 		req := fmt.Sprintf("%08x-req-%d", 0x1000+w.seq*7919, w.seq)
-		db := jsondb.New(w.data, w.latest)
+		db := w.newDB()
 		if err := db.Open(w.loc(d), w.startTime(o), req); err != nil {
 			return fail("Open(%q) failed: %v", w.loc(d), err)
 		}
@@ -352,10 +353,26 @@ func sameJSON(a, b string) bool {
 	return string(xb) == string(yb)
 }
 
+// newDB creates a store instance (a process of its own, in the model) and
+// remembers it: its cache eviction goroutine is ended with the case.
+func (w *world) newDB() *jsondb.JSONDB {
+	db := jsondb.New(w.data, w.latest)
+	w.dbs = append(w.dbs, db)
+	return db
+}
+
+func (w *world) stopDBs() {
+	for _, db := range w.dbs {
+		db.VerifStop()
+	}
+	w.dbs = nil
+}
+
 // verify runs the full query set on every DAG through the long-lived reader
 // and through a fresh instance.
 func (w *world) verify(step int) *failure {
 	fresh := jsondb.New(w.data, w.latest)
+	defer fresh.VerifStop()
 	for _, db := range []struct {
 		n string
 		s *jsondb.JSONDB
@@ -474,7 +491,8 @@ func run(c Case) (*failure, map[string]bool, bool) {
 	defer os.RemoveAll(root)
 	w := &world{root: root, names: append([]string(nil), c.Names...), runs: map[int][]*mrun{}, data: filepath.Join(root, "data"),
 		now: time.Now(), latest: c.LatestToday}
-	w.reader = jsondb.New(w.data, w.latest)
+	w.reader = w.newDB()
+	defer w.stopDBs()
 	for i, o := range c.Ops {
 		if f := w.apply(o, labels); f != nil {
 			f.msg = fmt.Sprintf("op %d (%s): %s", i, o.Kind, f.msg)
